@@ -140,15 +140,16 @@ def analyse_negative(case, res):
                              f"{neg['call']}_data from {ag} towards {neg['target']} ({neg['why']}) was accepted"))
     elif transport == "local" and not errs:
         # in-process: the error is raised to the caller of run() (the generator never sees it)
-        if res.exc_type != "ScenarioError":
+        if not res.is_a("ScenarioError"):
             fails.append(Failure("C16.refusal", f"C16.refusal|wrong_error|{shape}",
                                  f"run() ended with {res.outcome} {res.exc_type}: {res.exc_msg}"))
     elif not errs:
         fails.append(Failure("C16.refusal", f"C16.refusal|no_error|{shape}", f"no error reached the agent: {res.outcome} {res.exc_msg}"))
     else:
         e = errs[0]
-        etype = e[3] if transport == "local" else e[5]
-        if etype != "ScenarioError":
+        # in-process: any subclass of ScenarioError is a ScenarioError; remote: the type named on the wire
+        etypes = (e[6] if len(e) > 6 else [e[3]]) if transport == "local" else [e[5]]
+        if "ScenarioError" not in etypes:
             fails.append(Failure("C16.refusal", f"C16.refusal|wrong_error|{shape}",
                                  f"refused with {e[3]} (remote type {e[5]}): {e[4]}"))
     # no effect: the target never sees a set: value
